@@ -54,6 +54,7 @@ class World(object):
         self.reentries_from_handler = 0
         self.proxy_checks = 0
         self.dirty_from_own_body = 0
+        self.asked_by_descendants = 0
 
 
 def body(fn, key):
@@ -90,7 +91,11 @@ def body(fn, key):
         for i in range(c.get("blocks", 1)):
             w.running.pop()
             try:
-                yield harness.HItem(w.rt, i % 2, "d%d" % next(w.item_ctr), ("dd", eid, i))
+                it = harness.HItem(w.rt, i % 2, "d%d" % next(w.item_ctr), ("dd", eid, i))
+                if i == 0 and c.get("child_asks") and not nested:
+                    yield it, fns()["asker"].asynq(fn, key, c.get("reenter_spelling", 0), c.get("child_asks") == 2)
+                else:
+                    yield it
             finally:
                 w.running.append(mk)
         if c.get("fail"):
@@ -158,6 +163,19 @@ def fns():
     def failing():
         yield None
         raise UserErr(("planned",))
+
+    @A()
+    def asker(fn, key, sp, late):
+        # a task CREATED by a deduplicated body, running while that body is suspended: it asks for the very call
+        # that created it. It is outside the running body, so it must be handed the in-flight task (it does not
+        # await it - that would be a cycle)
+        if late:
+            yield harness.HItem(W.rt, 1, "ask%d" % next(W.item_ctr), ("ask", fn))
+        W.asked_by_descendants += 1
+        do_call(fn, key, sp)
+        return 1
+
+    _fns["asker"] = asker
 
     # deduplicated proxies that hand back futures which are not tasks: a finished ConstFuture, a batch item
     from asynq import ConstFuture
@@ -347,7 +365,7 @@ def make_script(rnd):
     cfg = {}
     for fn in fnames:
         for k in keys:
-            cfg[repr((fn, k))] = {"blocks": rnd.choice([1, 1, 2, 3]), "fail": rnd.random() < 0.25, "reenter": rnd.random() < 0.2, "reenter_spelling": rnd.randrange(6), "reenter_in_handler": rnd.random() < 0.12, "dirty_self": rnd.random() < 0.12}
+            cfg[repr((fn, k))] = {"blocks": rnd.choice([1, 1, 2, 3]), "fail": rnd.random() < 0.25, "reenter": rnd.random() < 0.2, "reenter_spelling": rnd.randrange(6), "reenter_in_handler": rnd.random() < 0.12, "dirty_self": rnd.random() < 0.12, "child_asks": rnd.choice([0, 0, 0, 0, 0, 1, 2])}
     actors = []
     for a in range(rnd.randint(2, 6)):
         script = []
@@ -528,6 +546,7 @@ def run_unit(unit, progress):
             inc("answers_checked_against_requested_arguments", w.answers_checked)
             inc("reentries_from_an_except_handler", w.reentries_from_handler)
             inc("dirty_calls_from_the_running_body_itself", w.dirty_from_own_body)
+            inc("requests_by_tasks_the_suspended_body_created", w.asked_by_descendants)
             inc("deduplicated_proxy_checks", w.proxy_checks)
             blocked += w.calls_inflight_blocked
             if viol and not bad:
